@@ -119,6 +119,10 @@ func mkReader(mode string, data []byte) io.Reader {
 	panic("bad reader mode " + mode)
 }
 
+func newServerSession(k [32]byte) (hccrypto.Cryptographer, error) {
+	return hccrypto.NewSecureSessionFromSharedKey(k)
+}
+
 func sharedKey(h string) [32]byte {
 	var k [32]byte
 	copy(k[:], unhex(h))
@@ -194,6 +198,23 @@ func runFrame(id string, toks []string) (res string) {
 			ctr += uint64((len(msg) + 1023) / 1024)
 		}
 		return strings.Join(out, " ")
+	case "decs":
+		// like dec, but every segment is its own reader (Decrypt sees end-of-input after each)
+		k := sharedKey(toks[1])
+		s := newSess(toks[2], k)
+		var released []byte
+		for _, sg := range toks[3:] {
+			r := bytes.NewBuffer(unhex(sg))
+			for r.Len() > 0 {
+				dr, err := s.Decrypt(r)
+				if err != nil {
+					return "out=" + hx(released) + " st=err"
+				}
+				d, _ := ioutil.ReadAll(dr)
+				released = append(released, d...)
+			}
+		}
+		return "out=" + hx(released) + " st=clean"
 	case "dec":
 		k := sharedKey(toks[1])
 		s := newSess(toks[2], k)
